@@ -47,6 +47,9 @@ def k_jobs():
              F_METH)
     j += per("c09_with_history", "WithHistory via with_history/new: transparent (one inner next per next, same input, same output); get(i) i-th newest for symbolic i<=5, None beyond; iter() oldest first",
              F_METH + F_HIST)
+    for suf, rt, c, tier in (("n1to2", "stream lengths 1,2", 40, "q"), ("n3", "stream length 3", 50, "q"), ("n4", "stream length 4", 80, "t")):
+        j.append(K("c09_comb::c09_with_history_chunked_" + suf, LOGM + rt + "; WithHistory fed in chunks (next / over, then over, then an empty over; every split point): outputs are those of one pass and the history afterwards holds every output of the whole stream, oldest first (get at a symbolic index, iter)",
+                   encodes=F_METH + F_HIST, cost=c, timeout=900, tier=tier))
     j.append(K("c09_comb::c09_with_history_new_fails", LOGM + "with_history / WithHistory::new: a failing inner new is returned, no next", encodes=F_METH + F_HIST, cost=6))
     R34 = (("n0to2", "stream lengths 0,1,2", 14), ("n3to4", "stream lengths 3,4", 25))
     j += per("c09_with_history_over_clone", "WithHistory driven through Method::over; clone unaffected by a further step of the original; both IntoIterator impls",
